@@ -7,22 +7,23 @@ set_option linter.unusedSimpArgs false
 structure Steps (s0 : St) (b0 a : Nat) (s : St) (r : St × List Ev) : Prop where
   next : Next s0 b0 a s r.1
   evs : ∀ ev ∈ r.2, EvOK s0 b0 a r.1 ev
-  noann : ∀ ev ∈ r.2, ev.isAnnounce = false
+  plain : ∀ ev ∈ r.2, ev.isPlain = true
+  law : Law s r.1 r.2
 
 theorem Steps.nil {s0 b0 a s} (h : Mid s0 b0 a s) : Steps s0 b0 a s (s, []) :=
-  ⟨Next.refl h, by simp, by simp⟩
+  ⟨Next.refl h, by simp, by simp, Law.nil s⟩
 
 theorem Steps.append {s0 b0 a s s1 s2 e1 e2} (h1 : Steps s0 b0 a s (s1, e1)) (h2 : Steps s0 b0 a s1 (s2, e2)) :
     Steps s0 b0 a s (s2, e1 ++ e2) := by
-  refine ⟨h1.next.trans h2.next, ?_, ?_⟩
+  refine ⟨h1.next.trans h2.next, ?_, ?_, h1.law.append h2.law h1.next.ext h2.next.ext⟩
   · intro ev hev
     rcases List.mem_append.mp hev with hev | hev
     · exact evok_mono h2.next.ext h1.next.mid.b0lt ev (h1.evs ev hev)
     · exact h2.evs ev hev
   · intro ev hev
     rcases List.mem_append.mp hev with hev | hev
-    · exact h1.noann ev hev
-    · exact h2.noann ev hev
+    · exact h1.plain ev hev
+    · exact h2.plain ev hev
 
 theorem ext_iout_some {s s' : St} (hE : Ext s s') (i : Nat) (hi : i < s.items.length) (h : (s.iout i).isSome) :
     (s'.iout i).isSome := by
@@ -35,7 +36,7 @@ def RuleB (s : St) (b0 : Nat) (o : Outc) : Prop :=
 
 theorem RuleB.next {s0 b0 a s s' o} (hn : Next s0 b0 a s s') (h : RuleB s b0 o) : RuleB s' b0 o := by
   unfold RuleB at *
-  rw [hn.bo, ← hn.ext.1]; exact h
+  rw [hn.bo, ← hn.ext.1.1]; exact h
 
 theorem RuleB.rule {s b0 o} (i : Nat) (h : RuleB s b0 o) : Rule s b0 i o := by
   rcases h with h | h
@@ -71,10 +72,10 @@ theorem leftovers_spec {s0 b0 a} (io : Outc) (L : List Nat) :
       · exact hall j hj
     · simp only [hc]
       have hn : s.iout i = none := by simpa using hc
-      have ⟨n1, io1, ev1, na1⟩ := completeItem_spec h s.items.length i io false hi hn (fun _ => hR.rule i)
+      have ⟨n1, io1, ev1, na1, l1⟩ := completeItem_spec h s.items.length i io false hi hn (fun _ => hR.rule i)
       have ⟨st, hall⟩ := ih (completeItem s.items.length s i io false).1 n1.mid
         (fun j hj => by rw [n1.bi]; exact hL j (by simp [hj])) (hR.next n1)
-      refine ⟨Steps.append ⟨n1, ev1, na1⟩ st, ?_⟩
+      refine ⟨Steps.append ⟨n1, ev1, na1, l1⟩ st, ?_⟩
       intro j hj
       simp at hj
       rcases hj with hj | hj
@@ -95,10 +96,10 @@ theorem setAllLoop_spec {s0 b0 a} (L : List Nat) :
       exact ih s h (fun j hj => hL j (by simp [hj]))
     · simp only [hc]
       have hn : s.iout i = none := by simpa using hc
-      have ⟨n1, _, ev1, na1⟩ := completeItem_spec h s.items.length i (.val (s.payload i)) true hi hn (fun hf => by cases hf)
+      have ⟨n1, _, ev1, na1, l1⟩ := completeItem_spec h s.items.length i (.val (s.payload i)) true hi hn (fun hf => by cases hf)
       have st := ih (completeItem s.items.length s i (.val (s.payload i)) true).1 n1.mid
         (fun j hj => by rw [n1.bi]; exact hL j (by simp [hj]))
-      exact Steps.append ⟨n1, ev1, na1⟩ st
+      exact Steps.append ⟨n1, ev1, na1, l1⟩ st
 
 theorem debugFlush_spec {s0 b0 a} (L : List Nat) :
     ∀ s, Mid s0 b0 a s → s.kind = .debug → (∀ i ∈ L, i ∈ s.bitems b0) →
@@ -116,11 +117,11 @@ theorem debugFlush_spec {s0 b0 a} (L : List Nat) :
       exact ⟨Steps.nil h, by simp⟩
     · simp only [hc]
       have hn : s.iout i = none := by simpa using hc
-      have ⟨n1, io1, ev1, na1⟩ := completeItem_spec h s.items.length i (.val (s.payload i)) false hi hn
+      have ⟨n1, io1, ev1, na1, l1⟩ := completeItem_spec h s.items.length i (.val (s.payload i)) false hi hn
         (fun _ => Or.inr (Or.inr ⟨hk, rfl⟩))
       have ⟨st, hall⟩ := ih (completeItem s.items.length s i (.val (s.payload i)) false).1 n1.mid
-        (by rw [← n1.ext.1]; exact hk) (fun j hj => by rw [n1.bi]; exact hL j (by simp [hj]))
-      refine ⟨Steps.append ⟨n1, ev1, na1⟩ st, ?_⟩
+        (by rw [← n1.ext.1.1]; exact hk) (fun j hj => by rw [n1.bi]; exact hL j (by simp [hj]))
+      refine ⟨Steps.append ⟨n1, ev1, na1, l1⟩ st, ?_⟩
       intro hr j hj
       simp at hj
       rcases hj with hj | hj
@@ -141,8 +142,8 @@ theorem act1_spec {s0 b0 a s} (h : Mid s0 b0 a s) (x : Act) :
       · simp only [hc, if_true]; exact Steps.nil h
       · simp only [hc]
         have hn : s.iout i = none := by simpa using hc
-        have ⟨n1, _, ev1, na1⟩ := completeItem_spec h s.items.length i (.val v) true hi hn (fun hf => by cases hf)
-        exact ⟨n1, ev1, na1⟩
+        have ⟨n1, _, ev1, na1, l1⟩ := completeItem_spec h s.items.length i (.val v) true hi hn (fun hf => by cases hf)
+        exact ⟨n1, ev1, na1, l1⟩
   | setError k e =>
     simp only [act1]
     cases hk : (s.bitems b0)[k]? with
@@ -153,8 +154,8 @@ theorem act1_spec {s0 b0 a s} (h : Mid s0 b0 a s) (x : Act) :
       · simp only [hc, if_true]; exact Steps.nil h
       · simp only [hc]
         have hn : s.iout i = none := by simpa using hc
-        have ⟨n1, _, ev1, na1⟩ := completeItem_spec h s.items.length i (.err (.user e)) true hi hn (fun hf => by cases hf)
-        exact ⟨n1, ev1, na1⟩
+        have ⟨n1, _, ev1, na1, l1⟩ := completeItem_spec h s.items.length i (.err (.user e)) true hi hn (fun hf => by cases hf)
+        exact ⟨n1, ev1, na1, l1⟩
   | setAll =>
     simp only [act1]
     exact setAllLoop_spec (s.bitems b0) s h (fun _ hj => hj)
@@ -162,7 +163,7 @@ theorem act1_spec {s0 b0 a s} (h : Mid s0 b0 a s) (x : Act) :
     simp only [act1]
     simp only [newItemOn_mid h p none (some b0)]
     have n2 := next_pushItem h p none
-    refine ⟨n2, ?_, ?_⟩
+    refine ⟨n2, ?_, ?_, law_pushItem s a p none (some b0) none⟩
     · intro ev hev
       simp at hev; subst hev
       exact ⟨rfl, rfl, h.ext.2.2.1, by simp, by simp [pushItem_ibatch]⟩
@@ -185,5 +186,136 @@ theorem runScript_spec {s0 b0 a} (sc : Script) :
     | none =>
       simp only
       exact Steps.append st1 (ih s1 st1.next.mid)
+
+/-! ### two facts about the logs that do not need the invariant -/
+
+/-- every completion by the library (`byBody = false`) logged in `evs` carries the outcome `io` -/
+def LibIs (io : Outc) (evs : List Ev) : Prop := ∀ j o', Ev.item j o' false ∈ evs → o' = io
+
+def NoLib (evs : List Ev) : Prop := ∀ j o', Ev.item j o' false ∉ evs
+
+theorem newItemOn_evs {s : St} {b p : Nat} {sp src : Option Nat} {lk : Option Link} {r : St × List Ev}
+    (h : newItemOn s b p sp src lk = some r) : r.2 = [.created s.items.length b src] := by
+  unfold newItemOn at h
+  split at h
+  · cases h
+  · split at h
+    · cases h
+    · cases h; rfl
+
+theorem spawnPart_noitem (s1 : St) (it : Item) (j : Nat) (o' : Outc) (bb : Bool) :
+    Ev.item j o' bb ∉ (spawnPart s1 it).2 := by
+  unfold spawnPart
+  cases it.spawn with
+  | none => simp
+  | some p =>
+    simp only
+    cases h : newItemOn s1 s1.active p none (some it.batch) with
+    | none => simp
+    | some r => simp [newItemOn_evs h]
+
+theorem completeItem_noLib (fuel : Nat) : ∀ (s : St) (i : Nat) (o : Outc), NoLib (completeItem fuel s i o true).2 := by
+  induction fuel with
+  | zero =>
+    intro s i o j o' hmem
+    unfold completeItem at hmem
+    cases e : s.items[i]? with
+    | none => simp [e] at hmem
+    | some it =>
+      simp only [e, List.mem_cons] at hmem
+      rcases hmem with hmem | hmem
+      · cases hmem
+      · exact spawnPart_noitem _ _ _ _ _ hmem
+  | succ fuel ih =>
+    intro s i o j o' hmem
+    unfold completeItem at hmem
+    cases e : s.items[i]? with
+    | none => simp [e] at hmem
+    | some it =>
+      simp only [e] at hmem
+      cases hl : it.link with
+      | none =>
+        simp only [hl, List.mem_cons] at hmem
+        rcases hmem with hmem | hmem
+        · cases hmem
+        · exact spawnPart_noitem _ _ _ _ _ hmem
+      | some l =>
+        simp only [hl] at hmem
+        split at hmem
+        · simp only [List.mem_cons, List.mem_append] at hmem
+          rcases hmem with hmem | hmem | hmem
+          · cases hmem
+          · exact spawnPart_noitem _ _ _ _ _ hmem
+          · exact ih _ _ _ _ _ hmem
+        · simp only [List.mem_cons] at hmem
+          rcases hmem with hmem | hmem
+          · cases hmem
+          · exact spawnPart_noitem _ _ _ _ _ hmem
+
+theorem completeItem_libIs (fuel : Nat) (s : St) (i : Nat) (o : Outc) (bb : Bool) :
+    LibIs o (completeItem fuel s i o bb).2 := by
+  intro j o' hmem
+  cases fuel with
+  | zero =>
+    unfold completeItem at hmem
+    cases e : s.items[i]? with
+    | none =>
+      simp only [e, List.mem_singleton] at hmem
+      cases hmem; rfl
+    | some it =>
+      simp only [e, List.mem_cons] at hmem
+      rcases hmem with hmem | hmem
+      · cases hmem; rfl
+      · exact absurd hmem (spawnPart_noitem _ _ _ _ _)
+  | succ fuel =>
+    unfold completeItem at hmem
+    cases e : s.items[i]? with
+    | none =>
+      simp only [e, List.mem_singleton] at hmem
+      cases hmem; rfl
+    | some it =>
+      simp only [e] at hmem
+      cases hl : it.link with
+      | none =>
+        simp only [hl, List.mem_cons] at hmem
+        rcases hmem with hmem | hmem
+        · cases hmem; rfl
+        · exact absurd hmem (spawnPart_noitem _ _ _ _ _)
+      | some l =>
+        simp only [hl] at hmem
+        split at hmem
+        · simp only [List.mem_cons, List.mem_append] at hmem
+          rcases hmem with hmem | hmem | hmem
+          · cases hmem; rfl
+          · exact absurd hmem (spawnPart_noitem _ _ _ _ _)
+          · exact absurd hmem (completeItem_noLib _ _ _ _ _ _)
+        · simp only [List.mem_cons] at hmem
+          rcases hmem with hmem | hmem
+          · cases hmem; rfl
+          · exact absurd hmem (spawnPart_noitem _ _ _ _ _)
+
+theorem leftovers_libIs (io : Outc) (L : List Nat) : ∀ s, LibIs io (leftovers io L s).2 := by
+  induction L with
+  | nil => intro s j o' hmem; simp [leftovers] at hmem
+  | cons i is ih =>
+    intro s j o' hmem
+    unfold leftovers at hmem
+    split at hmem
+    · exact ih s j o' hmem
+    · simp only [List.mem_append] at hmem
+      rcases hmem with hmem | hmem
+      · exact completeItem_libIs _ _ _ _ _ j o' hmem
+      · exact ih _ j o' hmem
+
+/-- `DebugBatch._flush` returns, or raises FutureIsAlreadyComputed -/
+theorem debugFlush_res (L : List Nat) : ∀ s, (debugFlush L s).2.2 = none ∨ (debugFlush L s).2.2 = some .already := by
+  induction L with
+  | nil => intro s; left; rfl
+  | cons i is ih =>
+    intro s
+    unfold debugFlush
+    split
+    · right; rfl
+    · exact ih _
 
 end AsynqModel.Batching
